@@ -19,6 +19,7 @@ from __future__ import annotations
 import ast
 
 from ..core import Ctx, Ob, ok, unres, viol
+from ..flow import LocalDefs
 from ..model import AnalysisError, unparse, walk_no_nested
 
 RG = "cirkit.templates.region_graph.graph.RegionGraph"
@@ -111,4 +112,61 @@ def canonical(ctx: Ctx) -> list[Ob]:
             out.append(viol("R7n", f.qualname, inst, f"`{unparse(n)[:70]}` keeps the order in which the partition lists its children: the same split listed in another order counts as a different decomposition, so a structured-decomposable graph (e.g. RandomBinaryTree(3, num_repetitions=2, seed=5)) is flagged as not structured-decomposable", site))
     if not out:
         out.append(unres("R7n", f.qualname, "decomposition", "no collection of child scopes found: another formulation, no verdict", f.loc))
+    return out
+
+
+# ------------------------------------------------------------------------------------------ R7v
+CONNECTIVITY_CALLS = {"eigvals", "eigvalsh", "eigh", "eig", "connected_components", "matrix_power", "matrix_rank", "floyd_warshall", "shortest_path", "breadth_first_order", "depth_first_order", "dijkstra"}
+
+
+def connectivity_not_completeness(ctx: Ctx, fq: str = "cirkit.templates.region_graph.graph.RegionGraph.is_compatible") -> list[Ob]:
+    """R7v -- "the two partitionings force everything together" is connectedness, a transitive notion.
+
+    ``is_compatible`` builds the one-step relation "regions i and j of the first partition both
+    overlap some region of the second" and has to answer whether it links *all* regions into one
+    component -- then no common refinement exists and the graphs are incompatible.  Regions can be
+    linked through a chain (A~B, B~C, A and C disjoint), so the refusing test has to derive from a
+    transitive computation: the spectrum of the Laplacian, connected components, a matrix power /
+    closure, a traversal loop.  A test of the one-step matrix alone (``adj.all()``: completeness)
+    reports chains as compatible."""
+    f = ctx.repo.func(fq)
+    ld = LocalDefs(f.node)
+    out: list[Ob] = []
+    rets = []
+    par: dict[int, ast.AST] = {}
+    for n in ast.walk(f.node):
+        for ch in ast.iter_child_nodes(n):
+            par[id(ch)] = n
+    for r in walk_no_nested(f.node):
+        if isinstance(r, ast.Return) and isinstance(r.value, ast.Constant) and r.value.value is False:
+            cur: ast.AST | None = r
+            tests = []
+            in_loop = False
+            while cur is not None and cur is not f.node:
+                up = par.get(id(cur))
+                if isinstance(up, ast.If) and any(cur is b for b in up.body):
+                    tests.append(up.test)
+                if isinstance(up, (ast.For, ast.While)):
+                    in_loop = True
+                cur = up
+            if in_loop and tests:
+                rets.append((r, tests))
+    if not rets:
+        return [unres("R7v", f.qualname, "transitive", "no `return False` under a condition inside the partition loop (another formulation): no verdict", f.loc)]
+    for r, tests in rets:
+        loc = f"{f.module.relpath}:{r.lineno}"
+        exprs = [e for t in tests for e in [t, *ld.expand(t)]]
+        calls = {(c.func.attr if isinstance(c.func, ast.Attribute) else getattr(c.func, "id", "")) for e in exprs for c in ast.walk(e) if isinstance(c, ast.Call)}
+        # a name updated inside a while / for loop of its own (a closure computed by iteration)
+        names = {x.id for e in exprs for x in ast.walk(e) if isinstance(x, ast.Name)}
+        iterated = False
+        for w in ast.walk(f.node):
+            if isinstance(w, ast.While):
+                stored = {t.id for s in ast.walk(w) if isinstance(s, (ast.Assign, ast.AugAssign)) for t in ast.walk(s.targets[0] if isinstance(s, ast.Assign) else s.target) if isinstance(t, ast.Name)}
+                if stored & names:
+                    iterated = True
+        if calls & CONNECTIVITY_CALLS or iterated:
+            out.append(ok("R7v", f.qualname, "transitive", f"the refusal derives from a transitive computation ({sorted(calls & CONNECTIVITY_CALLS) or 'an iterated closure'})", loc))
+        else:
+            out.append(viol("R7v", f.qualname, "transitive", f"the refusal `{unparse(tests[0])[:50]}` looks at the one-step overlap relation only ({sorted(calls)[:4]}): regions linked through a chain (A~B, B~C) are one component without the relation being complete, so incompatible region graphs are reported compatible", loc))
     return out
